@@ -1037,6 +1037,9 @@ def search_to_angle(ck: Ck) -> None:
             else: a = Vec(1.0, math.sin(math.radians(v[0])), 0.0).to_angle(v[1])
         except (ValueError, ZeroDivisionError):
             continue
+        except AttributeError as e:         # an angle escaped from a conversion without all of its slots and was read
+            found.setdefault('angle-slot-missing-after-to_angle', (route, v, (repr(e),)))
+            continue
         ck.count('to_angle_cases')
         ck.hist('to_angle_route', route)
         if any(abs(x) < 1e-9 and x != 0 for x in v):
@@ -1255,13 +1258,13 @@ def run(ck: Ck) -> None:
         info = pool.submit(ck.coq_eval, IMPORTS, ['bad_events no_carve mut_events', 'bad_results result_kinds', 'bad_creations angle_creations',
                                                   'neg_zero_fix format_float_cfg', 'bad_shapes copy_shapes'], 'info', 600, 'Import ListNotations.') if built else None
         escalated = bool(ck.tie_broken)
-        frames = search_histories(ck)
+        frames = guarded(ck, search_histories, [])
         if built:
             pend.append(Pending(ck, corr_frames(ck, frames), pool))
             corr_results(ck, frames, side)
             corr_shapes(ck, frames, side)
-        search_to_angle(ck)
-        search_text(ck)
+        guarded(ck, search_to_angle)
+        guarded(ck, search_text)
         for p in pend:
             p.finish()
         v = info.result() if info is not None else None
@@ -1272,10 +1275,24 @@ def run(ck: Ck) -> None:
             finish_theorems()
     if ck.tie_broken and not escalated:
         # a correspondence failed after the searches had run with the small budget: search again with the escalated one
-        search_histories(ck)
-        search_to_angle(ck)
-        search_text(ck)
+        guarded(ck, search_histories)
+        guarded(ck, search_to_angle)
+        guarded(ck, search_text)
     explain_failures(ck)
+
+
+def guarded(ck: Ck, search, default=None):
+    """Run one search; an exception that escapes from the implementation inside it (a broken tree can raise anywhere)
+    is reported as a failed obligation of the check instead of ending the run with an internal error."""
+    try:
+        return search(ck)
+    except Exception as e:          # noqa: BLE001
+        import traceback
+        tb = traceback.extract_tb(e.__traceback__)
+        where = next((f'{fr.name} ({fr.filename.rsplit("/", 1)[-1]}:{fr.lineno})' for fr in reversed(tb) if '/srctools/' in fr.filename), 'the check')
+        ck.obligation(f'search:{search.__name__}_completed', False, f'{type(e).__name__}: {e} raised in {where}')
+        ck.tie_broken.append(f'{search.__name__} stopped by {type(e).__name__} in {where}')
+        return default
 
 
 def explain_failures(ck: Ck) -> None:
@@ -1299,6 +1316,9 @@ def explain_failures(ck: Ck) -> None:
     if any(k.startswith(('vec-from-str', 'angle-from-str', 'parse-vec-str')) for k in keys):
         for o in ('instance:parse_vec_str_', 'instance:from_str_', 'correspondence:parse_vec_str'):
             ck.explain(o)
+        # a text that does not read back can equally come from the writing side (a component printed with fewer places
+        # is still a plain decimal): the round-trip replay shows it
+        ck.explain('instance:str_and_join_use_format_float')
     if any(k.startswith(('angle-360-', 'angle-out-of-range', 'angle-slot-missing')) for k in keys):
         for o in ('instance:all_angle_store_sites_safe', 'instance:no_single_modulo_store', 'instance:no_unclassified_angle_store',
                   'instance:no_unclassified_angle_creation', 'instance:to_angle_stores_all_slots', 'instance:angle_init_stores_all_slots'):
